@@ -272,6 +272,48 @@ def w_phases(ctx, wid, seed):
                 return
 
 
+def w_cli(ctx, wid, seed):
+    """the option as the user gives it: the real btcdeb, non-interactive (script on stdin and as argument), with -z, with --allow-disabled-opcodes and
+    without the option, for each of the 15 opcodes on valid operands (executed and in an unexecuted branch)"""
+    from .. import cli
+    exe = cli.binpath('btcdeb')
+    for op in sorted(OPS):
+        name = OPS[op]
+        a, b = R.num_enc(600), R.num_enc(7)
+        args = (a,) if name in ('INVERT', '2MUL', '2DIV') else ((b'abcdef', R.num_enc(1), R.num_enc(2)) if name == 'SUBSTR' else ((b'abcdef', R.num_enc(2)) if name in ('LEFT', 'RIGHT') else
+               ((b'ab', b'cd') if name in ('CAT', 'AND', 'OR', 'XOR') else ((a, R.num_enc(3)) if name in ('LSHIFT', 'RSHIFT') else (a, b)))))
+        exp = expect(op, args, False)
+        assert exp[0] == 'val' and len(exp[1]) >= 1
+        for executed in (True, False):
+            script = build(op, args, False, executed)
+            for opt in (['-z'], ['--allow-disabled-opcodes'], []):
+                for mode in ('stdin', 'argv'):
+                    case = dict(op=name, executed=executed, option=opt, mode=mode, script=script.hex())
+                    ctx.case(repr(case), True, case, 'cli:' + ('option' if opt else 'no-option'))
+                    if mode == 'stdin':
+                        r = cli.run(exe, opt + ['--modify-flags=-MINIMALDATA'], stdin=b'0x' + script.hex().encode() + b'\n', timeout=20)
+                    else:
+                        r = cli.run(exe, opt + ['--modify-flags=-MINIMALDATA', '0x' + script.hex()], stdin_tty=True, timeout=20)
+                    if r.timed_out:
+                        ctx.inconclusive += 1
+                        continue
+                    if r.abnormal:
+                        ctx.violations.append(dict(campaign='cli', why='btcdeb %s terminated abnormally (%s) on OP_%s' % (' '.join(opt), r.abnormal, name), case=case, refails=3))
+                        return
+                    out = [l for l in r.out.decode(errors='replace').split('\n') if l.strip()]
+                    if not opt:
+                        if r.rc != 1 or b'disabled opcode' not in r.err:
+                            ctx.violations.append(dict(campaign='cli', why='without the option a script with OP_%s (%s) must end with exit 1 and the disabled-opcode error: rc=%s stdout=%r stderr=%r' % (
+                                name, 'executed' if executed else 'unexecuted', r.rc, out[-2:], r.err.decode(errors='replace')[-120:]), case=case, refails=3))
+                            return
+                        continue
+                    want = [x.hex() for x in exp[1]] if executed else ['01']
+                    if r.rc != 0 or len(out) != 1 or out[0] not in want:
+                        ctx.violations.append(dict(campaign='cli', why='btcdeb %s (non-interactive, script by %s) on OP_%s (%s): expected exit 0 and the stack %r, got rc=%s stdout=%r stderr=%r' % (
+                            opt[0], mode, name, 'executed' if executed else 'unexecuted', want, r.rc, out[-2:], r.err.decode(errors='replace')[-120:]), case=case, observed=[r.rc, out[-2:]], expected=want, refails=3))
+                        return
+
+
 def run_ops(h, script, minimal=False):
     g = h.req(kvline('run', script=script, flags=F['MINIMALDATA'] if minimal else 0, sv=0, z=1, mode='step', trace=0))
     if 'crash' in g or 'exit' in g:
@@ -341,6 +383,7 @@ def run(tier, t0):
             tasks.append((w_table, dict(op=op, part=p, parts=parts, tier=tier)))
     tasks.append((w_relations, dict()))
     tasks.append((w_phases, dict()))
+    tasks.append((w_cli, dict()))
     tasks += [(w_random, dict(examples=8000 if tier == 'quick' else 100000)) for _ in range(8 if tier == 'quick' else core.WORKERS)]
     m = core.parallel(PID, tasks)
     m.exhaustive = (tier == 'thorough')
@@ -354,6 +397,10 @@ def replay(rec):
     if 'relation' in c:
         ctx = core.Ctx(PID)
         w_relations(ctx, 0, 0)
+        return (not ctx.violations), str(ctx.violations[:1])
+    if 'option' in c or 'phase' in c:
+        ctx = core.Ctx(PID)
+        (w_cli if 'option' in c else w_phases)(ctx, 0, 0)
         return (not ctx.violations), str(ctx.violations[:1])
     op = [o for o, n in OPS.items() if n == c['op']][0]
     h = Harness('plain')
